@@ -468,6 +468,8 @@ func TestEachKernel(t *testing.T) {
 			{Kind: "try", Sub: &base, Finally: "loop"},
 			{Kind: "try", Sub: &base, Catch: "loop", Finally: "quick"},
 		}
+		quickTry := Shape{Kind: "try", Sub: &base, Catch: "quick"}
+		shapes = append(shapes, Shape{Kind: "future", Sub: &quickTry}, Shape{Kind: "retry", Sub: &base})
 		for i, s := range shapes {
 			for mode := 0; mode < 3; mode++ {
 				cancel := mode > 0
@@ -482,5 +484,5 @@ func TestEachKernel(t *testing.T) {
 			}
 		}
 	}
-	pbt.Exhaustive("every kernel x {bare, try+quick handler, try+two-form quick handler+finally, try+looping finally, try+looping handler+finally} x {deadline, cancel, cancel before a far deadline}", n)
+	pbt.Exhaustive("every kernel x {bare, try+quick handler, try+two-form quick handler+finally, try+looping finally, try+looping handler+finally, try+quick handler inside a future, retry idiom} x {deadline, cancel, cancel before a far deadline}", n)
 }
